@@ -231,3 +231,33 @@ Qed.
 
 Lemma indent_str_S : forall d, indent_str (S d) = M "  " ++ indent_str d.
 Proof. reflexivity. Qed.
+
+(* ------------------------------------------------------------------ *)
+(* (j) splitting at an option: a suppressed option leaves no trace,    *)
+(*     an unsuppressed one contributes one contiguous block in place   *)
+(* ------------------------------------------------------------------ *)
+Lemma C19_suppressed_no_trace_pf : forall fmt a b c0 l1 o l2 e f g pff fb d,
+  let c := Cfg a b c0 (l1 ++ o :: l2) e f g pff in
+  suppressed (eff_filter c fb) o = true ->
+  print_cfg fmt c fb d = print_cfg fmt (Cfg a b c0 (l1 ++ l2) e f g pff) fb d.
+Proof.
+  intros fmt a b c0 l1 o l2 e f g pff fb d c H. subst c.
+  rewrite !C19_print_is_ordered_concat_pf.
+  unfold eff_filter in *. cbn [c_pff c_opts] in *.
+  rewrite !filter_app. cbn [filter]. rewrite H. reflexivity.
+Qed.
+
+Lemma C19_block_in_place_pf : forall fmt a b c0 l1 o l2 e f g pff fb d,
+  let c := Cfg a b c0 (l1 ++ o :: l2) e f g pff in
+  suppressed (eff_filter c fb) o = false ->
+  print_cfg fmt c fb d =
+  print_cfg fmt (Cfg a b c0 l1 e f g pff) fb d ++
+  print_opt fmt o (eff_filter c fb) d ++
+  print_cfg fmt (Cfg a b c0 l2 e f g pff) fb d.
+Proof.
+  intros fmt a b c0 l1 o l2 e f g pff fb d c H. subst c.
+  rewrite !C19_print_is_ordered_concat_pf.
+  unfold eff_filter in *. cbn [c_pff c_opts] in *.
+  rewrite filter_app. cbn [filter]. rewrite H. cbn [negb].
+  rewrite map_app, concat_app. cbn [map concat]. reflexivity.
+Qed.
